@@ -5,6 +5,8 @@ import (
 	"context"
 	"encoding/json"
 	"fmt"
+	"github.com/scottyw/tetromino/gameboy/controller"
+	"github.com/scottyw/tetromino/gameboy/display"
 	"os"
 	"os/exec"
 	"path/filepath"
@@ -91,11 +93,27 @@ func multiScenario(id string, roms []string, order []int, sched string, frames i
 		// "frame-audio": as "frame", every instance with its own (stand-in) speakers attached; each instance's outputs
 		// are released at the end, in creation order, and what its speakers received is part of the comparison
 		audio := sched == "frame-audio"
+		// a key event for instance i before frame 1 + i%2 (what the display's key callback does: the controller is told,
+		// then CPU.OnInput) - in the solo run and in the shared run alike; it concerns that instance only
+		keyEvent := func(in *inst, i, f int) {
+			if sched != "conc" && f == 1+i%2 {
+				in.gb.VerifController().ButtonAction(controller.A, true)
+				in.gb.VerifCPU().OnInput()
+			}
+		}
+		// an instance whose frame step reports a close request is not stepped any further (as Run would do)
+		closed := map[*inst]bool{}
+		step := func(in *inst) {
+			if !closed[in] && in.gb.VerifRunFrame(context.Background()) {
+				closed[in] = true
+			}
+		}
 		soloRuns := func() {
 			for i, r := range roms {
 				in := newInstOpt(r, audio, audio && i%2 == 1)
 				for f := 0; f < frames; f++ {
-					in.gb.VerifRunFrame(context.Background())
+					keyEvent(in, i, f)
+					step(in)
 					sc.Ev = append(sc.Ev, []any{"solo", i, f, gbDigest(in.gb, in.serial)})
 				}
 				if audio {
@@ -113,10 +131,23 @@ func multiScenario(id string, roms []string, order []int, sched string, frames i
 			}
 			ins[i] = newInstOpt(roms[i], audio, audio && i%2 == 1)
 		}
+		if audio {
+			// a windowed emulator whose window is closed was here before: no business of anybody else's
+			display.VerifCloseAfter = 1
+			wnd := gameboy.New(gameboy.Config{RomFilename: roms[0], DisableVideoOutput: false, DisableAudioOutput: true, SerialWriter: &bytes.Buffer{}})
+			display.VerifCloseAfter = 0
+			wnd.VerifRunFrame(context.Background())
+			wnd.VerifRunFrame(context.Background())
+			wnd.Cleanup()
+		}
 		if sched == "frame" || audio {
 			for f := 0; f < frames; f++ {
+				// the key events of this frame first (they arrive between frames), then the frame of every instance
 				for _, i := range order {
-					ins[i].gb.VerifRunFrame(context.Background())
+					keyEvent(ins[i], i, f)
+				}
+				for _, i := range order {
+					step(ins[i])
 				}
 				for i := range roms {
 					sc.Ev = append(sc.Ev, []any{"multi", i, f, gbDigest(ins[i].gb, ins[i].serial)})
@@ -235,14 +266,15 @@ func systemGenMulti(c *Ctx, w *trace.Writer, tmp string) {
 		if !c.Want("multi-" + sched) {
 			continue
 		}
-		roms := romList(c, tmp, 12)
+		roms := romList(c, tmp, 16)
 		// roms[2] and roms[10] are two different programs on the same kind of cartridge (MBC1, no RAM declared)
-		sets := [][]int{{2, 10}, {0, 1, 4}, {2, 4}, {3, 10, 6}, {0, 8}, {5, 2, 10}}
+		// roms[14] ends in STOP (a key event wakes it - its own, which comes a frame after its neighbour's)
+		sets := [][]int{{2, 10}, {0, 1, 4}, {0, 14}, {2, 4}, {3, 10, 6}, {0, 8}, {5, 2, 10}}
 		frames := 3
 		groups := 3
 		if c.Thorough() {
 			frames = 10
-			groups = 6
+			groups = 7
 		}
 		n := 0
 		for g := 0; g < groups; g++ {
